@@ -400,7 +400,9 @@ def history_table(ctx, rule):
         for s in ('p.x', ':checked', 'li:nth-child(odd)', 'div:has(> p:lang(fr))', 'p:-soup-contains(hello)', ':dir(ltr)', 'x|p, li', ':default, :indeterminate, p'):
             st, comp = api(ctx, 'compile', s, {'x': 'urn:x'})
             if st != 'ok':
-                raise AnalysisError(f'history table: {s!r} does not compile ({comp})')
+                if bad is None:
+                    bad = (kind, s, f'compile() raises {comp}', '-', '-')
+                continue
             opts = {'regex_engine': True, 'real_immutable': True, 'max_depth': 250, 'no_const_shortcut': True,
                     'persist': ctx._cache.setdefault('e2e-persist-real', {})}
 
